@@ -126,18 +126,17 @@ theorem padFallback_spec {F : Nat → Bool} {cfg : Cfg} {s : S} {old c : Bytes} 
       exact (padTo_of_le (by omega)).symm
 
 theorem extendFile_spec {F : Nat → Bool} {cfg : Cfg} {s : S} {old c : Bytes} (hs : Shape old c s)
-    (hl1 : cfg.legacy.finishLeak = false) (hl2 : cfg.legacy.statTarget = false)
-    (hlen : s.wd.incomplete = false → c.length = s.wd.fdOffset) :
+    (hl1 : cfg.legacy.finishLeak = false) (hl2 : cfg.legacy.statTarget = false) :
     ((extendFile F cfg s).2 = none → ∃ c', Shape old c' (extendFile F cfg s).1 ∧
         (extendFile F cfg s).1.wd.incomplete = s.wd.incomplete ∧
-        (s.wd.incomplete = false → c.length ≤ cfg.size → c' = padTo cfg.size c)) ∧
+        (c.length = s.wd.fdOffset → c.length ≤ cfg.size → c' = padTo cfg.size c)) ∧
     ((extendFile F cfg s).2 ≠ none → Aborted (extendFile F cfg s).1) := by
   unfold extendFile
   simp only [hs.fd, Bool.not_true, Bool.false_eq_true, ↓reduceIte]
   split
   · rename_i heq
-    refine ⟨fun _ => ⟨c, hs, rfl, fun hinc hle => ?_⟩, fun h => absurd rfl h⟩
-    exact (padTo_of_le (by rw [hlen hinc, heq]; exact Nat.le_refl _)).symm
+    refine ⟨fun _ => ⟨c, hs, rfl, fun hlen hle => ?_⟩, fun h => absurd rfl h⟩
+    exact (padTo_of_le (by rw [hlen, heq]; exact Nat.le_refl _)).symm
   · rcases sys_ftruncate_shape (F := F) hs.fs cfg.size with ⟨h1, h2⟩ | ⟨h1, h2⟩
     · -- ftruncate made to fail
       simp only [h1, Res.isOk, Bool.not_false, true_and]
@@ -250,7 +249,7 @@ theorem finishEntry_data {F : Nat → Bool} {cfg : Cfg} {s : S} {old new c : Byt
   have hl3 : cfg.legacy.renameAfterFailedWrite = false := by rw [hleg]
   unfold finishEntry
   simp only [hs.st]
-  obtain ⟨e1, e2⟩ := extendFile_spec (F := F) hs hl1 hl2 (fun h => (hc h).1)
+  obtain ⟨e1, e2⟩ := extendFile_spec (F := F) (cfg := cfg) hs hl1 hl2
   have hple : PL old new (extendFile F cfg s).1.w := (extendFile_frame F cfg s).presPL hpl
   split
   · rename_i st hst
@@ -265,8 +264,8 @@ theorem finishEntry_data {F : Nat → Bool} {cfg : Cfg} {s : S} {old new c : Byt
     refine finishMetadata_spec _ hsf ((noFx_frame_benign hfr).presPL hple) hl3 ?_
     intro hi
     have hi0 : s.wd.incomplete = false := by rw [← hinc']; rw [hwd] at hi; exact hi
-    obtain ⟨_, k2, k3⟩ := hc hi0
-    rw [hc' hi0 k2, k3]
+    obtain ⟨k1, k2, k3⟩ := hc hi0
+    rw [hc' k1 k2, k3]
 
 /-- finish_entry (and close, free) once the entry is settled. -/
 theorem finishEntry_fin {F : Nat → Bool} {cfg : Cfg} {s : S} {old new : Bytes} (h : Fin old new s) :
